@@ -78,6 +78,18 @@ fn main() {
         let with_sig: Vec<W> = rel.iter().map(|c| concat(c, sig)).collect();
         sink.merge(struct_sweep(&run, &[&P_DH_NEW], &with_sig, 0, &sfx, 16, &no_extra));
     }
+    // explicit-prime curves and DH groups on the primes everybody knows (P-256, P-384, P-521, secp256k1, brainpool, 25519, ffdhe2048)
+    {
+        let real = cat::ec_explicit_real();
+        let with_pt: Vec<W> = real.iter().filter(|w| w.lens.last().map_or(false, |l| l.label == "ec_point_len")).cloned().collect();
+        let without: Vec<W> = real.iter().filter(|w| w.lens.last().map_or(false, |l| l.label != "ec_point_len")).cloned().collect();
+        sink.merge(struct_sweep(&run, &[&ECDH_PARAMS], &with_pt, 1, &sfx, 16, &no_extra));
+        sink.merge(struct_sweep(&run, &[&EC_PARAMETERS], &without, 1, &sfx, 16, &no_extra));
+        sink.merge(struct_sweep(&run, &[&EC_PARAMETERS], &with_pt, 0, &sfx, 16, &no_extra));
+        sink.merge(struct_sweep(&run, &[&DH_PARAMS], &cat::dh_well_known(), 1, &sfx, 16, &no_extra));
+        let sig = &sig_new[sig_new.len() / 2];
+        sink.merge(struct_sweep(&run, &[&P_ECDH_NEW], &with_pt.iter().map(|c| concat(c, sig)).collect::<Vec<_>>(), 0, &sfx, 16, &no_extra));
+    }
     // the same encodings under foreign outer headers (DER OCTET STRING / SEQUENCE / BIT STRING, length prefixes, ...)
     sink.merge(struct_sweep(&run, &[&DH_PARAMS], &wrapped(&cat::dh_params(false), 2), 0, &sfx, 16, &no_extra));
     sink.merge(struct_sweep(&run, &[&ECDH_PARAMS, &EC_PARAMETERS], &wrapped(&ecdh, 1), 0, &sfx, 16, &no_extra));
